@@ -7,6 +7,7 @@ import numpy as np
 from harness.common import bitstr, rowsstr, exc_class, coq_bits, coq_list
 from harness import c20_extra as cx
 from harness import c20_hist as ch
+from harness import c20_dr as cdr
 
 
 def letters(b):
@@ -115,8 +116,14 @@ def run(ctx):
                 'its arrays in place (^=, slice/element assignment, writes through hsplit views, row iteration) with '
                 'the operators of a corrupted / repaired / other code, reads them back with bsf_to_pauli, before, '
                 'between and after building and first reading the codes; validate and the published matrices must be '
-                'those of the strings (engine request `basic` = Core/CodeP.code_of); nontrivial = k>=2, a corruption '
-                'that only the third check detects, a 1-d presentation, a caller history, '
+                'those of the strings (engine request `basic` = Core/CodeP.code_of); DecodeResult built from every '
+                'tuple of None / ordinary / degenerate (False, all-zero) values under every CALL SPELLING of the '
+                'documented constructor (success, logical_commutations, recovery, custom_values): positional prefix '
+                'of length 0..4 followed by keywords in shuffled order, unset parameters as explicit None or left '
+                'out, on the class and on a user subclass; guard, stored attributes, operands untouched, results '
+                'collected and re-read at the end; nontrivial = k>=2, a corruption '
+                'that only the third check detects, a 1-d presentation, a caller history, a DecodeResult call with >= 2 '
+                'positional arguments or on a subclass, '
                 'or a code with >= 100 stabilizer rows' % (ctx.pick(8, 10), ctx.pick(600, 620), ctx.pick(513, 1025),
                                                             ctx.pick(8, 10)))
     import time
@@ -373,31 +380,10 @@ def run(ctx):
         ctx.violation('basic-matrices', 'BasicCode matrices are not the bsf of its strings', {})
     ctx.count('basic-defaults', True, 'basic')
 
-    # DecodeResult: all 16 presence patterns
-    for pat in itertools.product([False, True], repeat=4):
-        kw = {}
-        if pat[0]:
-            kw['success'] = False
-        if pat[1]:
-            kw['logical_commutations'] = np.array([0, 1])
-        if pat[2]:
-            kw['recovery'] = np.array([0, 1, 0, 0])
-        if pat[3]:
-            kw['custom_values'] = np.array([3])
-        try:
-            d = DecodeResult(**kw)
-            r = '1'
-            if (d.success, d.logical_commutations is None, d.recovery is None, d.custom_values is None) != \
-                    (kw.get('success'), not pat[1], not pat[2], not pat[3]):
-                ctx.violation('decode-result-fields', 'DecodeResult does not store what it is given', {'pattern': pat})
-        except QecsimError:
-            r = '0'
-        req.append('dr_ok %s %s' % ('s' if pat[0] else '_', 'r' if pat[2] else '_'))
-        exp.append(('DecodeResult', r))
-        ctx.count(('dr', pat), True, 'decode-result')
-        if (r == '1') != (pat[0] or pat[2]):
-            ctx.violation('decode-result-guard', 'DecodeResult constructible iff success or recovery given fails',
-                          {'pattern': pat, 'constructed': r})
+    # DecodeResult: every value tuple (None / ordinary / degenerate values) under every call spelling of the
+    # documented constructor (positional, keyword, mixed; on the class and on a user subclass); results are kept
+    # and re-read at the end
+    cdr.run(ctx, req, exp)
 
     tm['small impl'] = time.time()
     rest = [i for i in range(len(req)) if not big_lo <= i < big_hi]
